@@ -1,3 +1,4 @@
+import SqlProofs.AlignComments
 import SqlModel.Grouping.MatchSpec
 import SqlModel.Sexp
 import SqlProofs.MatchSpec
@@ -50,5 +51,15 @@ example :
 only `align_comments` may append leaves taken from the siblings that immediately follow the group -/
 theorem later_passes_keep_brackets : type_of% @later_pass_brackets := @later_pass_brackets
 theorem brackets_kept_through_group : type_of% @group_brackets_kept := @group_brackets_kept
+
+/-- **what `align_comments` appends**: each step extends one group by the following whitespace leaves and exactly one Comment group -/
+theorem align_comments_appends_ws_then_comment : type_of% @Sql.alignPass_rwA := @Sql.alignPass_rwA
+/-- `group_comments` builds Comment groups that contain only comment/whitespace leaves (`clL`) -/
+theorem comment_groups_hold_only_comments : type_of% @Sql.groupComments_cl := @Sql.groupComments_cl
+/-- hence `align_comments` keeps every bracket/block group's class, order and leaves, adding only comment/whitespace leaves after it -/
+theorem align_comments_keeps_brackets : type_of% @Sql.align_pass_brackets := @Sql.align_pass_brackets
+/-- end to end (decomposition at `group_begin` / `align_comments`): the six classes are kept by every later pass; across `align_comments`
+they may only gain trailing comments — under `clL` of its input (kept by `group_comments`; for passes 2–22 checked by the oracle) -/
+theorem brackets_end_with_closer_modulo_comments : type_of% @Sql.groupWith_brackets_comments := @Sql.groupWith_brackets_comments
 
 end Sql.C09
